@@ -142,6 +142,15 @@ func registerIntrinsics(e *Engine) {
 	} {
 		I[n] = noop
 	}
+	I["(*sync.Pool).Get"] = func(in *Interp, fn *ssa.Function, a []Value) Value {
+		l := a[0].(*Loc)
+		nf, _ := in.load(in.structField(l, "New")).(*FuncV)
+		if nf == nil {
+			return IfaceV{}
+		}
+		return in.call(nf, nil, 0)
+	}
+	I["(*sync.Pool).Put"] = noop
 	atomicLoad := func(in *Interp, fn *ssa.Function, a []Value) Value { return in.load(a[0]) }
 	atomicStore := func(in *Interp, fn *ssa.Function, a []Value) Value { in.store(a[0], a[1]); return TupleV{} }
 	atomicAdd := func(in *Interp, fn *ssa.Function, a []Value) Value {
